@@ -8,7 +8,7 @@
 (* U1: EVERY record with POS in 1..6, REF one base (matching or not) or    *)
 (*     the two reference bases, one or two ALT alleles of length <= 2 over *)
 (*     ACGT, genotypes 0/0 0/1 1/1 ./1 0/0/1 (and 1/2 with two ALTs):      *)
-(*     64,410 records = single-record files.                               *)
+(*     64,410 records = single-record files (203,028 states in all).       *)
 (* U2: the standard records of the catalogued variants, the MNP components *)
 (*     as single-base records, a REF-mismatch spelling, an uncatalogued    *)
 (*     SNV, a complex record, two multi-allelic records x all genotypes:   *)
